@@ -55,6 +55,50 @@ def maxList : List Int → Except Err Int
   | [] => .error .other
   | x :: xs => .ok (xs.foldl imax x)
 
+/-! ### Python dicts (insertion ordered) as association lists -/
+
+def dictHas {κ ν} [DecidableEq κ] (d : List (κ × ν)) (k : κ) : Bool := d.any fun p => decide (p.1 = k)
+
+def dictGet {κ ν} [DecidableEq κ] : List (κ × ν) → κ → Except Err ν
+  | [], _ => .error .other                     -- KeyError
+  | (k', v) :: r, k => if k' = k then .ok v else dictGet r k
+
+/-- `d[k] = v`: an existing key keeps its position -/
+def dictSet {κ ν} [DecidableEq κ] : List (κ × ν) → κ → ν → List (κ × ν)
+  | [], k, v => [(k, v)]
+  | (k', v') :: r, k, v => if k' = k then (k', v) :: r else (k', v') :: dictSet r k v
+
+/-- `del d[k]` -/
+def dictDel {κ ν} [DecidableEq κ] : List (κ × ν) → κ → Except Err (List (κ × ν))
+  | [], _ => .error .other
+  | (k', v') :: r, k => if k' = k then .ok r else (dictDel r k).map ((k', v') :: ·)
+
+/-! ### Object graphs: slots, adapters, components as numbered objects with attribute tables -/
+
+/-- what the translated driver functions read of the coupling graph (`finam/schedule.py`) -/
+structure Heap where
+  isInput : Nat → Bool        -- isinstance(x, IInput): inputs and adapters
+  isOutput : Nat → Bool       -- isinstance(x, IOutput): outputs and adapters
+  isAdapter : Nat → Bool      -- isinstance(x, IAdapter)
+  isNoDep : Nat → Bool        -- isinstance(x, NoDependencyAdapter)
+  isDelay : Nat → Bool        -- isinstance(x, ITimeDelayAdapter)
+  isNoBranch : Nat → Bool     -- isinstance(x, NoBranchAdapter)
+  isTimeComp : Nat → Bool     -- isinstance(c, ITimeComponent)
+  needsPush : Nat → Bool
+  needsPull : Nat → Bool
+  isStatic : Nat → Bool
+  finished : Nat → Bool       -- c.status == ComponentStatus.FINISHED
+  hasSource : Nat → Bool      -- x.source is not None
+  source : Nat → Nat          -- x.source
+  time : Nat → Int            -- out.time / comp.time
+  nextTime : Nat → Int        -- comp.next_time
+  withDelay : Nat → Int → Int -- adapter.with_delay(t)
+  owner : Nat → Nat           -- output_owners[out]
+  inputs : Nat → List Nat     -- comp.inputs.values()
+  outputs : Nat → List Nat    -- comp.outputs.values()
+  targets : Nat → List Nat    -- out.targets
+  size : Nat                  -- number of objects (bound of every walk along `source`)
+
 /-- `timedelta.total_seconds()` of a duration in microseconds -/
 def totalSeconds (d : Int) : Rat := (d : Rat) / 1000000
 
